@@ -250,6 +250,43 @@ ConvertWdl(wd, wto) ==
 \* holes survive a conversion exactly when both versions carry MAHO
 HolesPreserved(wfrom, wto) == HasMaho(wfrom) /\ HasMaho(wto)
 
+\* types.rs WdlFile::convert_to: the second public conversion; never refuses, copies tiles AND holes
+\* unconditionally (a Vanilla object may carry holes in memory: the writer must not let them disturb
+\* the layout), model lists by the target's capabilities
+ConvertTo(wd, wto) ==
+    [ver |-> wto, tiles |-> wd.tiles, holes |-> wd.holes,
+     names |-> IF HasWmoChunks(wto) THEN wd.names ELSE <<>>,
+     nIdx |-> IF HasWmoChunks(wto) THEN wd.nIdx ELSE 0,
+     nPlace |-> IF HasWmoChunks(wto) THEN wd.nPlace ELSE 0,
+     nMldd |-> IF HasMlChunks(wto) THEN wd.nMldd ELSE 0,
+     nMlmd |-> IF HasMlChunks(wto) THEN wd.nMlmd ELSE 0]
+
+\* ---- conversion histories (chains) --------------------------------------------------------------
+\* a chain is a sequence of target versions applied one after the other; wapi selects the WDL API
+WdlStep(wapi, wd, wto) == IF wapi = "to" THEN ConvertTo(wd, wto) ELSE ConvertWdl(wd, wto)
+WdlChainDefs(wapi, wd, wchain) ==                      \* <<d0, d1, ..., dk>>
+    FoldLeft(LAMBDA wacc, wto : Append(wacc, WdlStep(wapi, wacc[Len(wacc)], wto)), <<wd>>, wchain)
+WdlChainDef(wapi, wd, wchain) == LET wds == WdlChainDefs(wapi, wd, wchain) IN wds[Len(wds)]
+\* convert_wdl_file may refuse step k (holes would be lost); convert_to never does
+WdlChainRefusesAt(wapi, wd, wchain, wk) ==
+    wapi = "file" /\ wk \in 1..Len(wchain) /\ ConvertWdlRefuses(WdlChainDefs(wapi, wd, wchain)[wk], wchain[wk])
+WdtChainDef(wd, wchain) == FoldLeft(LAMBDA wacc, wto : ConvertWdt(wacc, wacc.ver, wto), wd, wchain)
+\* hole masks are representable along the whole history iff every version visited carries MAHO
+HolesSurviveChain(wv0, wchain) == HasMaho(wv0) /\ \A wi \in 1..Len(wchain) : HasMaho(wchain[wi])
+\* laws of histories on the model: tiles are never touched; A -> B -> A gives back the tile set and, when
+\* both versions carry MAHO, the holes; convert_to keeps even unrepresentable holes in memory
+WdlChainLaw(wd) ==
+    \A wapi \in {"file", "to"} : \A wb \in {WdlVersions[wi] : wi \in 1..Len(WdlVersions)} :
+       LET wc == <<wb, wd.ver>>  wr == WdlChainDef(wapi, wd, wc) IN
+       /\ wr.tiles = wd.tiles /\ wr.ver = wd.ver
+       /\ (HolesSurviveChain(wd.ver, wc) => wr.holes = wd.holes)
+       /\ (wapi = "to" => wr.holes = wd.holes)
+       /\ \A wt \in wr.tiles : TileBytes(wr, wt) = CF_HDR + MARE_SIZE + (IF HasMaho(wr.ver) /\ wt \in wr.holes THEN CF_HDR + MAHO_SIZE ELSE 0)
+WdtChainLaw(wd) ==
+    \A wb \in {WdtVersions[wi] : wi \in 1..8} :
+       /\ WdtChainDef(wd, <<wb, wd.ver>>).tiles = wd.tiles
+       /\ \A wc \in {"Classic", "Cataclysm", "BfA"} : WdtChainDef(wd, <<wb, wc>>).tiles = wd.tiles     \* one target per era
+
 \* ================================ the writer / reader machines ===================================
 \* One behaviour = one file: the writer emits its chunks one per step, then the reader consumes
 \* them.  vdef is the object handed to the writer; vrd is what the reader has reconstructed.
@@ -470,6 +507,8 @@ WdlDeviationLoss == (vfmt = "wdl" /\ vpc = "done" /\ WdlValid(vdef) /\ vrd.dev #
 
 \* conversions: tile data are never touched; a conversion of a valid WDT stays valid whenever the
 \* terrain MWMO is empty (as in every shipped terrain map)
+WdtHistoryLaw == (vfmt = "wdt" /\ vpc = "w0") => WdtChainLaw(vdef)
+WdlHistoryLaw == (vfmt = "wdl" /\ vpc = "w0" /\ WdlValid(vdef)) => WdlChainLaw(vdef)
 WdtConvertLaw == (vfmt = "wdt" /\ vpc = "w0") =>
     \A wto \in {WdtVersions[wi] : wi \in 1..8} :
        LET wc == ConvertWdt(vdef, vdef.ver, wto) IN
